@@ -320,7 +320,25 @@ func genAccount() *jwt.AccountClaims {
 		a.Limits.WildcardExports = chance(0.7)
 	}
 	if chance(0.3) {
-		a.Limits.JetStreamLimits.DiskStorage = int64(rng.Intn(3))
+		// any single flat JetStream field (storage or not) may be the only non-zero one
+		switch rng.Intn(8) {
+		case 0:
+			a.Limits.JetStreamLimits.DiskStorage = int64(rng.Intn(3))
+		case 1:
+			a.Limits.JetStreamLimits.MemoryStorage = int64(rng.Intn(3))
+		case 2:
+			a.Limits.JetStreamLimits.Streams = int64(rng.Intn(3))
+		case 3:
+			a.Limits.JetStreamLimits.Consumer = int64(rng.Intn(3))
+		case 4:
+			a.Limits.JetStreamLimits.MaxAckPending = int64(rng.Intn(3))
+		case 5:
+			a.Limits.JetStreamLimits.MemoryMaxStreamBytes = int64(rng.Intn(3))
+		case 6:
+			a.Limits.JetStreamLimits.DiskMaxStreamBytes = int64(rng.Intn(3))
+		default:
+			a.Limits.JetStreamLimits.MaxBytesRequired = chance(0.7)
+		}
 	}
 	if chance(0.3) {
 		tn := pick([]string{"R1", "R3"}, []string{""})
